@@ -169,7 +169,7 @@ var RangeFunc = function.New(&function.Spec{
 
 		var vals []cty.Value
 
-		if step == cty.Zero {
+		if step.RawEquals(cty.Zero) {
 			return cty.NilVal, function.NewArgErrorf(2, "step must not be zero")
 		}
 		if step.RawEquals(cty.PositiveInfinity) || step.RawEquals(cty.NegativeInfinity) {
